@@ -13,6 +13,7 @@ from ixverif import choice
 from ixverif.choice import Violation
 
 LEVEL = 'model_checking'
+FALSY = (0, 1, False, '', 0.0, None, 7)
 
 
 def configs(tier):
@@ -40,6 +41,101 @@ def make(cfg):
     return GeometricReservoirStorage(size=cfg['k'], store_targets=cfg['st'], constant_probability=arg)
 
 
+class RefCoin:
+    """Reference 1: per-arrival coin flip with probability p, uniform slot."""
+
+    def __init__(self, k, p):
+        import random
+        self.r, self.k, self.p, self.items = random, k, float(p), []
+
+    def update(self, x):
+        if len(self.items) < self.k:
+            self.items.append(x)
+        elif self.r.random() < self.p:
+            self.items[self.r.randrange(self.k)] = x
+
+
+class RefGap:
+    """Reference 2: the same law through geometric waiting times (a continuous transformation of the draw), as a
+    correct implementation may legitimately do; under a finite grid this has a quadrature error."""
+
+    def __init__(self, k, p):
+        import math
+        import random
+        self.r, self.m, self.k, self.p, self.items, self.gap = random, math, k, float(p), [], None
+
+    def update(self, x):
+        if len(self.items) < self.k:
+            self.items.append(x)
+            return
+        if self.p <= 0:
+            return
+        if self.gap is None:
+            self.gap = 0 if self.p >= 1 else int(self.m.log(1.0 - self.r.random()) / self.m.log(1.0 - self.p))
+        if self.gap == 0:
+            self.items[self.r.randrange(self.k)] = x
+            self.gap = None
+        else:
+            self.gap -= 1
+
+
+OFFSETS = (0, 1, 3, -1, 5, 7, -3, 9)
+
+
+def approx_policy(base):
+    cache = {}
+
+    def pol(i):
+        if i not in cache:
+            M = base + OFFSETS[i % len(OFFSETS)]
+            cache[i] = (tuple((j + 0.5) / M for j in range(M)), None)
+        return cache[i]
+    return pol
+
+
+def approx_probs(kind, cfg, base):
+    """Retention / entry probabilities (floats) by full weighted enumeration on per-draw co-prime grids."""
+    k, n, pv = cfg['k'], min(cfg['n'], cfg['k'] + 3), cfg['pv']
+    retained, entered = {}, {}
+
+    def driver(run):
+        if kind == 'impl':
+            s = make(cfg)
+            for t in range(1, n + 1):
+                s.update({'id': t}, FALSY[t % len(FALSY)])
+            return tuple(x['id'] for x in list(s.get_data()[0]))
+        s = (RefCoin if kind == 'coin' else RefGap)(k, pv)
+        for t in range(1, n + 1):
+            s.update(t)
+        return tuple(s.items)
+
+    def on_leaf(run, ids):
+        w = float(run.weight)
+        for t in ids:
+            retained[t] = retained.get(t, 0.0) + w
+    st = choice.explore(driver, on_leaf=on_leaf, float_policy=approx_policy(base), weighted=False)
+    want = {t: float((1 - pv / k) ** (n - k) if t <= k else pv * (1 - pv / k) ** (n - t)) for t in range(1, n + 1)}
+    err = max(abs(retained.get(t, 0.0) - want[t]) for t in want)
+    return err, st.executions, {t: round(retained.get(t, 0.0), 4) for t in want}, want
+
+
+def fallback(cfg, desc):
+    """The exact (grid-aligned) comparison failed. A correct implementation may transform its draws continuously (e.g.
+    geometric waiting times); then probabilities under ANY finite grid carry a quadrature error. Decide with a tolerance
+    calibrated at run time on two correct reference implementations under the same co-prime grids."""
+    base = 9
+    e_impl, n_exec, got, want = approx_probs('impl', cfg, base)
+    e_coin, _, _, _ = approx_probs('coin', cfg, base)
+    e_gap, _, _, _ = approx_probs('gap', cfg, base)
+    tau = max(0.02, 2.5 * max(e_coin, e_gap))
+    if e_impl > tau:
+        return [("C09/retention", f"{desc}: retention probabilities {got} deviate from the law "
+                                  f"{ {t: round(v, 4) for t, v in want.items()} } by {e_impl:.4f} > {tau:.4f} (tolerance calibrated on two "
+                                  f"correct reference implementations under the same co-prime grids: coin flip {e_coin:.4f}, "
+                                  f"waiting time {e_gap:.4f}); the grid-aligned exact comparison failed as well", {}, ())], n_exec, tau, e_impl
+    return [], n_exec, tau, e_impl
+
+
 def driver_for(cfg):
     k, n = cfg['k'], cfg['n']
 
@@ -47,7 +143,7 @@ def driver_for(cfg):
         s = make(cfg)
         hist = []
         for t in range(1, n + 1):
-            s.update({'id': t}, t)
+            s.update({'id': t}, FALSY[t % len(FALSY)])       # targets incl. falsy ones: the law must not depend on y
             ids = tuple(x['id'] for x in list(s.get_data()[0]))
             if cfg['pv'] == 1 and t not in ids:
                 raise Violation("C09/p1-newest-not-stored",
@@ -111,7 +207,14 @@ def run_config(cfg):
             else:
                 continue
             break
-    sample = {'k': k, 'p': str(cfg['p']), 'grid_M': M, 'n': n, 'leaves': st.executions,
+    mode = 'exact'
+    approx = None
+    if viol and all(v[0] in ('C09/retention', 'C09/slot-law') for v in viol):
+        v2, n_exec, tau, e_impl = fallback(cfg, desc)
+        approx = {'tau': round(tau, 5), 'error': round(e_impl, 5), 'paths': n_exec}
+        mode = 'approximate (draws are transformed continuously)'
+        viol = v2 if v2 else []
+    sample = {'k': k, 'p': str(cfg['p']), 'grid_M': M, 'n': n, 'leaves': st.executions, 'mode': mode, 'approx': approx,
               'P(arrival t retained after n)': {t: str(retained.get((n, t), 0)) for t in range(1, n + 1)}}
     return dict(cfg=cfg, executions=st.executions, violations=viol, states=states, edges=edges,
                 sample=sample, nontrivial=len({v for v in retained.values() if 0 < v < 1}))
@@ -136,6 +239,9 @@ def main(rep):
     rep.add(states=len(states), transitions=len(edges))
     rep.note(configs=len(cfgs))
     rep.assume("random.random() is uniform on [0,1) and randrange(k) uniform on range(k) (trusted primitives)",
+               "if the grid-aligned exact comparison fails, the verdict falls back to a quadrature comparison on co-prime "
+               "grids with a tolerance calibrated on two correct reference implementations (a correct implementation may "
+               "use geometric waiting times instead of a per-arrival threshold test)",
                "the acceptance test is a threshold comparison of one uniform draw with p; thresholds are "
                "resolved to 1/M (M = 4x or 8x the denominator of p)")
     return rep.finish(
